@@ -1,4 +1,5 @@
-/-! Driver executable for family `db` — placeholder until the family is built. -/
+import Whv.Driver.Db
+/-! Driver executable for family `db` (C12): case lines on stdin, verdict lines on stdout. -/
 def main : IO UInt32 := do
-  IO.eprintln "family not built"
-  return 2
+  Whv.Driver.DbFam.run (← IO.getStdin)
+  return 0
